@@ -59,32 +59,47 @@ def lApply (tags : List (Nat × List Nat)) (s : LState) : LOp → Option LState
   | .execFin id retire =>
       if s.selected.contains id then some { s with reg := s.reg.filter (fun k => !retire.contains k) } else none
 
-def removeAt {α : Type} : List α → Nat → List α
-  | [], _ => []
-  | _ :: xs, 0 => xs
-  | x :: xs, n+1 => x :: removeAt xs n
-
 /-- record `i` may come next: no other remaining call returned before it was invoked -/
-def minimalAt (rs : List LRec) (i : Nat) : Bool :=
+def minimalIn (rs : List LRec) (remaining : List Nat) (i : Nat) : Bool :=
   match rs[i]? with
   | none => false
-  | some r => rs.all (fun r' => !(decide (r'.res < r.inv)))
+  | some r => remaining.all (fun j => match rs[j]? with
+      | some r' => !(decide (r'.res < r.inv))
+      | none => true)
 
-/-- depth-first search for a linearization (fuel = number of records) -/
-def linSearch (tags : List (Nat × List Nat)) (final : List Nat) : Nat → LState → List LRec → Bool
-  | _, s, [] => s.reg == final
-  | 0, _, _ :: _ => false
-  | fuel+1, s, rs =>
-      (List.range rs.length).any (fun i =>
-        minimalAt rs i &&
-        match rs[i]? with
-        | none => false
-        | some r =>
-            match lApply tags s r.op with
-            | none => false
-            | some s' => linSearch tags final fuel s' (removeAt rs i))
+/-- configurations already known to have no linearization: (registry, selected, remaining) -/
+abbrev Dead := List (List Nat × List Nat × List Nat)
+
+mutual
+/-- depth-first search with memoisation of failed configurations (fuel = number of records) -/
+def linSearch (tags : List (Nat × List Nat)) (final : List Nat) (rs : List LRec) :
+    Nat → LState → List Nat → Dead → Bool × Dead
+  | _, s, [], dead => (s.reg == final, dead)
+  | 0, _, _ :: _, dead => (false, dead)
+  | fuel+1, s, remaining, dead =>
+      if dead.contains (s.reg, s.selected, remaining) then (false, dead)
+      else
+        let r := linTry tags final rs fuel s remaining remaining dead
+        if r.1 then r else (false, (s.reg, s.selected, remaining) :: r.2)
+
+/-- try the candidates one after the other -/
+def linTry (tags : List (Nat × List Nat)) (final : List Nat) (rs : List LRec) :
+    Nat → LState → List Nat → List Nat → Dead → Bool × Dead
+  | _, _, _, [], dead => (false, dead)
+  | fuel, s, remaining, i :: cands, dead =>
+      let next :=
+        if minimalIn rs remaining i then
+          match rs[i]? with
+          | none => (false, dead)
+          | some r =>
+              match lApply tags s r.op with
+              | none => (false, dead)
+              | some s' => linSearch tags final rs fuel s' (remaining.filter (· != i)) dead
+        else (false, dead)
+      if next.1 then next else linTry tags final rs fuel s remaining cands next.2
+end
 
 def linearizableB (tags : List (Nat × List Nat)) (init final : List Nat) (rs : List LRec) : Bool :=
-  linSearch tags final rs.length { reg := sortKeys init, selected := [] } rs
+  (linSearch tags final rs (rs.length + 1) { reg := sortKeys init, selected := [] } (List.range rs.length) []).1
 
 end SV
